@@ -97,6 +97,42 @@ func runC01(c *Ctx) {
 			}))
 			c.obI("R01.2", ci, "cleaned-path", ok, "the trie is asked about path.Clean(path) in the route lookup and in the other-methods probe alike", "argument originates from "+describeOrigin(bad))
 		}
+		// the cleaned path is for the trie alone: no decision (a "sanity check" on what it contains, say) is taken on it
+		for _, cl := range callsIn(f, "path.Clean") {
+			if cl.Parent() != f || cl.Value() == nil || cl.Value().Referrers() == nil {
+				continue
+			}
+			var visit func(v ssa.Value, d int)
+			visit = func(v ssa.Value, d int) {
+				if v.Referrers() == nil || d > 3 {
+					return
+				}
+				for _, ref := range *v.Referrers() {
+					switch u := ref.(type) {
+					case *ssa.DebugRef, *ssa.MakeInterface, *ssa.Store:
+					case *ssa.Phi:
+						visit(u, d+1)
+					case ssa.CallInstruction:
+						n := calleeName(u.Common())
+						if n != "(*rt/middleware/denco.Router).Lookup" && !strings.HasSuffix(n, "debugLogf") && transparentCallee(ref) == nil {
+							c.obI("R01.2", ref, "cleaned-path-only-asked-of-the-trie", false, "the cleaned path is handed to the trie (and to debug logging) and to nothing else: whether a path is routed is the trie's answer alone", "the cleaned path is examined by "+n)
+						}
+					default:
+						c.obI("R01.2", ref, "cleaned-path-only-asked-of-the-trie", false, "the cleaned path is handed to the trie (and to debug logging) and to nothing else: whether a path is routed is the trie's answer alone", "the cleaned path is used by "+describe(refValue(ref)))
+					}
+				}
+			}
+			visit(cl.Value(), 0)
+		}
+		if f == om {
+			// every probe scans: no exit of OtherMethods lies in front of the scan over the routers (a method without a
+			// router of its own is exactly the case the 405 answer exists for)
+			for _, l := range mapLoops(f, vFieldLoad("rt/middleware.defaultRouter", "routers", nil)) {
+				for _, r := range realReturns(f) {
+					c.obI("R01.2", r, "other-methods-always-scans", !pathExists(f, nil, r, nil, isOneOf(l.Next)), "every return of OtherMethods lies behind the scan of the per-method routers", "OtherMethods can answer without having scanned the routers")
+				}
+			}
+		}
 		// the raw path takes part in no decision: it is only cleaned (or logged)
 		for _, ref := range *pth.Referrers() {
 			okUse, what := false, fmt.Sprintf("%v", ref)
@@ -533,6 +569,54 @@ func rulePathValuesDecodedOnce(c *Ctx, rule string) {
 			c.obI(rule, st, "value-decoded-once", okC, "a path-parameter value is the PathUnescape of the captured text, directly or split by the composite decoder", why)
 		}
 		c.obRF(rule, lk, "hands-values-on", nVal >= 2, "Lookup builds RouteParams", "")
+		// whether a capture is handed on whole or split by the composite decoder is decided for THAT capture from the
+		// template text behind its placeholder (nothing follows it in its segment): a value is taken whole only behind
+		// the failure of that test — not on the strength of a per-route flag computed from another placeholder
+		{
+			isPattern := vFieldLoadO(routeEntryT, "PathPattern")
+			nothingFollows := func(cond ssa.Value, branch bool) bool {
+				cnd, b := stripNot(cond, branch)
+				bo, ok := cnd.(*ssa.BinOp)
+				if !ok {
+					return false
+				}
+				isLen := func(v ssa.Value) bool {
+					Y, isL := lenOf(v)
+					return isL && isPattern(Y)
+				}
+				isByte := func(v ssa.Value) bool {
+					switch x := v.(type) {
+					case *ssa.Lookup:
+						return isPattern(x.X)
+					case *ssa.Index:
+						return isPattern(x.X)
+					case *ssa.UnOp:
+						if ia, isIA := x.X.(*ssa.IndexAddr); isIA && x.Op == token.MUL {
+							return isPattern(ia.X)
+						}
+					}
+					return false
+				}
+				slash := func(v ssa.Value) bool { k, isK := constInt(v); return isK && k == '/' }
+				switch {
+				case isLen(bo.Y): // xpos OP len
+					return bo.Op == token.LSS && !b || bo.Op == token.GEQ && b
+				case isLen(bo.X): // len OP xpos
+					return bo.Op == token.GTR && !b || bo.Op == token.LEQ && b
+				case isByte(bo.X) && slash(bo.Y), isByte(bo.Y) && slash(bo.X):
+					return bo.Op == token.EQL && b || bo.Op == token.NEQ && !b
+				}
+				return false
+			}
+			for _, l := range sliceLoops(lk, vOrigins(oCall(1, "(*rt/middleware/denco.Router).Lookup"))) {
+				for _, st := range fieldStores(lk, routeParamT, "Value") {
+					if ok, _ := isV(st.Val); !ok || !l.Header.Dominates(st.Block()) {
+						continue
+					}
+					c.obI(rule, st, "whole-value-only-when-nothing-follows-the-placeholder", guardedBy(st, l.Body, nothingFollows), "a captured value is handed on unsplit only when the template has nothing but '/' or its end behind this very placeholder", "a capture can be handed on whole without the template having been examined behind its placeholder")
+				}
+			}
+		}
 		for _, d := range dcs {
 			a := d.Common().Args
 			okN := vFieldLoad(dencoParamT, "Name", nil)(a[0])
